@@ -534,7 +534,7 @@ CycleCase(n, sd) ==
 \* tasks that violate (or only seem to violate) exactly one applicability condition (C11)
 BadCase(n, sd) ==
   LET b == ExtCase(n, sd)
-      k == n % 17
+      k == n % 21
       isSpec == "spec" \in DOMAIN b
       AddR(x) == [b EXCEPT !.right = @ \o " " \o x]
       AddU(x) == [b EXCEPT !.ug = @ \o " " \o x]
@@ -558,6 +558,12 @@ BadCase(n, sd) ==
              [] k = 15 -> IF isSpec THEN [b EXCEPT !.spec = @ \o " assumption: forall X (q(X, X) -> q(X))."]
                           ELSE AddU("assumption: forall X (q -> q(X)).")                \* q/0
              [] k = 16 -> AddR("p(X, Y) :- q(X), q(Y), not p(X).")                     \* p/2 next to the output p/1: a private predicate, fine
+             \* private recursion / a private choice on ONE side only, through predicates the other side does not have
+             [] k = 17 -> IF isSpec THEN AddR("rux(X) :- q(X), not rux(X + 1).") ELSE [b EXCEPT !.left = @ \o " lux(X) :- q(X), not lux(X + 1)."]
+             [] k = 18 -> IF isSpec THEN AddR("{rux(X)} :- q(X).") ELSE [b EXCEPT !.left = @ \o " {lux(X)} :- q(X)."]
+             [] k = 19 -> IF isSpec THEN AddR("rux(X) :- q(X), not mux(X). mux(X) :- q(X), not rux(X).")
+                          ELSE [b EXCEPT !.left = @ \o " lux(X) :- q(X), not mux(X). mux(X) :- q(X), not lux(X)."]
+             [] k = 20 -> IF isSpec THEN AddR("rux(X) :- q(X), not not rux(X).") ELSE [b EXCEPT !.left = @ \o " lux(X) :- q(X), not not lux(X). p(X) :- lux(X), q(X)."]
   IN [c EXCEPT !.id = "bad" \o ToString(n) \o "k" \o ToString(k)]
 
 \* ---------------------------------------------------------------- adversarial identifiers (C09, C12)
